@@ -2304,7 +2304,7 @@ inline bool gp_equal_case99(const GPString a, GPStrIn b)
 {
     return gp_str_equal_case(a, b.data, b.length);
 }
-#define GP_EQUAL_CASE2(A, B) gp_equal_case99(a, GP_STR_IN(B))
+#define GP_EQUAL_CASE2(A, B) gp_equal_case99(A, GP_STR_IN(B))
 #define GP_EQUAL_CASE(A,...) \
     GP_OVERLOAD2(__VA_ARGS__, gp_str_equal_case, GP_EQUAL_CASE2)(A, __VA_ARGS__)
 
